@@ -788,6 +788,10 @@ class FnTranslator:
                 fname = s.opts.get('_short', {}).get(s.fn.name, san(s.fn.name)); hl = s.loop_label(b)
                 # range-for loops: stable names for the iterator slots compared in the loop header
                 hdr_txt = ' '.join(re.sub(r'/\*.*?\*/', '', x) for x in code[b])
+                # counting loops: a stable name for the loop variable = the one stack slot that the header reads and the loop assigns
+                rd = set(re.findall(r'\b(v_[A-Za-z0-9_]+_slot)\b', hdr_txt)); wr = set().union(*[s.assigned[x] for x in lb])
+                iv = sorted(x for x in rd & wr if not re.fullmatch(r'v___(begin|end)\d*_slot', x))
+                if len(iv) == 1: out.append('#define IVAR_%s__%s %s' % (fname, hl, iv[0]))
                 for kind in ('begin', 'end'):
                     ids = sorted(set(re.findall(r'\b(v___%s\d*)\b' % kind, hdr_txt)))
                     if len(ids) == 1 and ids[0] in s.allocas:
@@ -834,7 +838,7 @@ class FnTranslator:
                     hits.append(lab)
             elif 1 <= k <= len(cands) and cands[k - 1] == b: hits.append(lab)
         if len(hits) != 1: die("loop label: loop %s of %s (%r) matches %d labels" % (b, s.fn.name, text(b).strip(), len(hits)))
-        s.loop_label_of[b] = 'L_' + hits[0]; return s.loop_label_of[b]
+        s.loop_label_of[b] = 'L_' + hits[0].rstrip('?'); return s.loop_label_of[b]
 
     def blabel(s, b):
         return 'B_' + re.sub(r'[^A-Za-z0-9_]', '_', b)
@@ -1226,6 +1230,7 @@ def translate(path, cfg):
         if hits == 0: die("layout guard did not fire: no access to %s::%s in the translated code" % (tyname, member))
     for x in cfg.get('loop_labels') or []:
         if x[0] not in fts: die("loop label: function %s not translated" % x[0])
+        if x[1].endswith('?'): continue        # optional label: the loop may be absent (its contract macros are then unused; the function's postconditions decide)
         if 'L_' + x[1] not in fts[x[0]].loop_label_of.values(): die("loop label did not fire: %s has no loop for %s (%r)" % (x[0], x[1], x[2]))
     # loop guards
     for (fname, header, needle) in cfg.get('loop_guards', []):
